@@ -286,12 +286,12 @@ func vCollect(v reflect.Value, out *[]vRange_, seen map[uintptr]bool) {
 			vCollect(v.Field(i), out, seen)
 		}
 	case reflect.Slice:
-		if v.Len() == 0 {
+		if v.Cap() == 0 {
 			return
 		}
 		esz := v.Type().Elem().Size()
-		if esz > 0 {
-			*out = append(*out, vRange_{v.Pointer(), v.Pointer() + esz*uintptr(v.Len())})
+		if esz > 0 { // the spare capacity belongs to the slice as well: an append writes there
+			*out = append(*out, vRange_{v.Pointer(), v.Pointer() + esz*uintptr(v.Cap())})
 		}
 		for i := 0; i < v.Len(); i++ {
 			vCollect(v.Index(i), out, seen)
